@@ -162,7 +162,7 @@ class Native:
         p = subprocess.run(["cargo", "test", "--offline", "--lib", test, "--", "--nocapture", "--test-threads=1"],
                            cwd=self.crate, env=env, capture_output=True, text=True, timeout=900)
         out = {}
-        for m in re.finditer(r"^OUT (\w+)=(.*)$", p.stdout, re.M):
+        for m in re.finditer(r"OUT (\w+)=(.*)$", p.stdout, re.M):
             v = m.group(2).strip()
             try:
                 out[m.group(1)] = int(v)
@@ -379,10 +379,434 @@ def c18_groups(mir, ctx):
 
 
 # --------------------------------------------------------------------------
+# C19: expression printer, one activation of Ast::format_with_precedence
+# --------------------------------------------------------------------------
+
+def sexpr_parse(txt):
+    toks = txt.replace("(", " ( ").replace(")", " ) ").split()
+    pos = [0]
+
+    def rd():
+        t = toks[pos[0]]
+        pos[0] += 1
+        if t == "(":
+            lst = []
+            while toks[pos[0]] != ")":
+                lst.append(rd())
+            pos[0] += 1
+            return lst
+        return t
+    return rd()
+
+
+def sexpr_eval(e, env):
+    if isinstance(e, str):
+        if e in ("true", "false"):
+            return e == "true"
+        if re.fullmatch(r"-?\d+", e):
+            return int(e)
+        return env[e]
+    op, args = e[0], e[1:]
+    if op == "ite":
+        return sexpr_eval(args[1], env) if sexpr_eval(args[0], env) else sexpr_eval(args[2], env)
+    vals = [sexpr_eval(a, env) for a in args]
+    if op == "and":
+        return all(vals)
+    if op == "or":
+        return any(vals)
+    if op == "not":
+        return not vals[0]
+    if op == "=":
+        return vals[0] == vals[1]
+    if op == "<":
+        return vals[0] < vals[1]
+    if op == "<=":
+        return vals[0] <= vals[1]
+    if op == ">":
+        return vals[0] > vals[1]
+    if op == ">=":
+        return vals[0] >= vals[1]
+    if op == "+":
+        return sum(vals)
+    if op == "-":
+        return -vals[0] if len(vals) == 1 else vals[0] - sum(vals[1:])
+    if op == "*":
+        r = 1
+        for v in vals:
+            r *= v
+        return r
+    if op == "mod":
+        return vals[0] % vals[1]
+    if op == "div":
+        return vals[0] // vals[1]
+    raise EncodingError("sexpr_eval: unsupported operator %s" % op)
+
+
+def enum_variants(src, name):
+    m = re.search(r"enum %s \{(.*?)\n\}" % name, src, re.S)
+    if not m:
+        raise EncodingError("enum %s not found in expr.rs" % name)
+    body = re.sub(r"//[^\n]*", "", m.group(1))
+    return re.findall(r"^\s*(\w+)\s*(?:\(.*\))?\s*,?\s*$", body, re.M)
+
+
+# reference: what each operator must print as, and the precedence ladder of the
+# property statement (OR < AND < NOT < comparison < | < ^ < & < shifts < + - < * / < unary - ~)
+C19_TOKEN = {"Eq": " = ", "Ne": " != ", "Lt": " < ", "Le": " <= ", "Gt": " > ", "Ge": " >= ", "Add": " + ", "Sub": " - ",
+             "Mul": " * ", "Div": " / ", "BitAnd": " & ", "BitOr": " | ", "BitXor": " ^ ", "Shl": " << ", "Shr": " >> ",
+             "And": " AND ", "Or": " OR ", "Neg": "-", "BitNot": "~", "BoolNot": "NOT "}
+C19_LEVEL = {"Or": 1, "And": 2, "BoolNot": 3, "Eq": 4, "Ne": 4, "Lt": 4, "Le": 4, "Gt": 4, "Ge": 4, "BitOr": 5, "BitXor": 6,
+             "BitAnd": 7, "Shl": 8, "Shr": 8, "Add": 9, "Sub": 9, "Mul": 10, "Div": 10, "Neg": 11, "BitNot": 11,
+             "Literal": 12, "Column": 12}
+C19_UNARY = ("Neg", "BitNot", "BoolNot")
+
+
+def c19_needs_parens(parent, slot, child):
+    """Reference predicate written from the ladder: binary levels are
+    left-associative; a child binding looser than its parent needs parentheses;
+    in the right slot of a binary parent an equal level needs them too."""
+    lp, lc = C19_LEVEL[parent], C19_LEVEL[child]
+    if lc == 12:
+        return False
+    if parent in C19_UNARY:
+        return lc < lp
+    if slot == 0:
+        return lc < lp
+    return lc <= lp
+
+
+def c19_models(events_sink):
+    def m_write_str(ex, callee, args, pc, events):
+        s = deref(args[1])
+        ev = ("tok", s.s) if isinstance(s, StrV) else ("dyn", repr(s))
+        return [(pc, events + [ev], EnumV(variant=0, fields=[TupleV([])]))]
+
+    def m_branch(ex, callee, args, pc, events):
+        r = deref(args[0])
+        if r.variant == 0:
+            return [(pc, events, EnumV(variant=0, fields=[TupleV([])]))]
+        return [(pc, events, EnumV(variant=1, fields=[r]))]
+
+    def m_from_residual(ex, callee, args, pc, events):
+        return [(pc, events + [("error-return",)], EnumV(variant=1, fields=[]))]
+
+    def m_recurse(ex, callee, args, pc, events):
+        child = deref(args[0])
+        prec = deref(args[2])
+        return [(pc, events + [("child", child.what if isinstance(child, OpaqueV) else repr(child), prec.term)],
+                 EnumV(variant=0, fields=[TupleV([])]))]
+
+    def m_value_fmt(ex, callee, args, pc, events):
+        return [(pc, events + [("literal",)], EnumV(variant=0, fields=[TupleV([])]))]
+
+    def m_as_str(ex, callee, args, pc, events):
+        return [(pc, events, OpaqueV("column-name"))]
+
+    return [
+        (r"Formatter::<'_>::write_str$", m_write_str),
+        (r"as Try>::branch$", m_branch),
+        (r"as FromResidual<.*>>::from_residual$", m_from_residual),
+        (r"Ast::format_with_precedence$", m_recurse),
+        (r"<Value as std::fmt::Display>::fmt$", m_value_fmt),
+        (r"String::as_str$", m_as_str),
+    ]
+
+
+def c19_templates(mir, ctx):
+    """One activation of the printer for every node kind, parent precedence symbolic."""
+    src = open(os.path.join(REPO, "src/internal/expr.rs")).read()
+    ast_vars = enum_variants(src, "Ast")
+    un_vars = enum_variants(src, "UnOp")
+    bin_vars = enum_variants(src, "BinOp")
+    fn = mir.find(r"::format_with_precedence$")
+    box = lambda name: TupleV([TupleV([OpaqueV(name)]), OpaqueV("alloc")])
+    kinds = []
+    for i, v in enumerate(ast_vars):
+        if v == "Literal":
+            kinds.append(("Literal", EnumV(variant=i, fields=[OpaqueV("value")])))
+        elif v == "Column":
+            kinds.append(("Column", EnumV(variant=i, fields=[OpaqueV("name")])))
+        elif v == "UnOp":
+            for j, u in enumerate(un_vars):
+                kinds.append((u, EnumV(variant=i, fields=[EnumV(variant=j), box("child0")])))
+        elif v == "BinOp":
+            for j, b in enumerate(bin_vars):
+                kinds.append((b, EnumV(variant=i, fields=[EnumV(variant=j), box("child0"), box("child1")])))
+        elif v in ("And", "Or"):
+            kinds.append((v, EnumV(variant=i, fields=[box("child0"), box("child1")])))
+        else:
+            raise EncodingError("unknown Ast variant %s (the C19 reference table does not cover it)" % v)
+    templates = {}
+    for name, node in kinds:
+        if name not in C19_LEVEL:
+            raise EncodingError("operator %s is not in the C19 reference ladder" % name)
+        P = ctx.fresh_int("parent_prec_" + name, "i32")
+        ex = M.Exec(mir, ctx, models=c19_models(None), inline=[r"::precedence$"])
+        outs = ex.run(fn, [RefV(node), OpaqueV("formatter"), P])
+        outs = outs + ex._pending_panics
+        ex._pending_panics = []
+        paths = []
+        for o in outs:
+            if o.kind == "unreachable":
+                continue
+            paths.append(o)
+        templates[name] = (P, paths)
+    return templates
+
+
+def c19_render(templates, tree, parent_prec=0):
+    """Render an expression tree from the templates (translator validation)."""
+    kind = tree[0]
+    if kind == "col":
+        name, children = "Column", []
+    elif kind == "lit":
+        name, children = "Literal", []
+    else:
+        name, children = kind, tree[1:]
+    P, paths = templates[name]
+    chosen = None
+    for o in paths:
+        if o.kind != "return":
+            continue
+        if all(sexpr_eval(sexpr_parse(c), {P.term: parent_prec}) for c in o.pc):
+            chosen = o
+            break
+    if chosen is None:
+        raise EncodingError("no template path for %s at precedence %d" % (name, parent_prec))
+    out = ""
+    for ev in chosen.events:
+        if ev[0] == "tok":
+            out += ev[1]
+        elif ev[0] == "dyn":
+            out += tree[1]
+        elif ev[0] == "literal":
+            out += str(tree[1])
+        elif ev[0] == "child":
+            idx = int(ev[1][-1])
+            out += c19_render(templates, children[idx], sexpr_eval(sexpr_parse(ev[2]), {P.term: parent_prec}))
+    return out
+
+
+def _c19_confirm(model, native):
+    out = native("native::c19::replay_c19", model)
+    if not out.get("_ran"):
+        return None, "native replay did not run"
+    if out.get("_panicked"):
+        return None, "native replay panicked: %s" % out.get("_panic_msg")
+    return (out.get("differs") == 1), "printed %r re-read as %r; evaluates differently on %s" % (
+        out.get("printed"), out.get("reparsed"), out.get("witness_row"))
+
+
+def c19_groups(mir, ctx):
+    fns = ["expr::Ast::format_with_precedence", "expr::BinOp::precedence"]
+    templates = c19_templates(mir, ctx)
+    groups = []
+
+    # ---- translator validation: the repo's own display test ----------------
+    g = Group("translator_validation", fns, validation=True,
+              note="the nine expressions of expr::tests::display rendered from the MIR-derived templates must equal the expected strings")
+    col = lambda n: ("col", n)
+    cases = [
+        (("Or", ("Le", ("Div", col("Foo"), ("lit", 10)), col("Bar")), ("Ge", col("Baz"), col("Foo"))), "Foo / 10 <= Bar OR Baz >= Foo"),
+        (("Mul", col("Foo"), ("Add", ("lit", 10), col("Bar"))), "Foo * (10 + Bar)"),
+        (("Mul", ("Add", col("Foo"), ("lit", 10)), col("Bar")), "(Foo + 10) * Bar"),
+        (("Or", ("And", col("Foo"), col("Bar")), col("Baz")), "Foo AND Bar OR Baz"),
+        (("And", ("Or", col("Foo"), col("Bar")), col("Baz")), "(Foo OR Bar) AND Baz"),
+        (("Sub", ("Sub", col("Foo"), col("Bar")), col("Baz")), "Foo - Bar - Baz"),
+        (("Sub", col("Foo"), ("Sub", col("Bar"), col("Baz"))), "Foo - (Bar - Baz)"),
+        (("Or", ("Or", col("Foo"), col("Bar")), col("Baz")), "Foo OR Bar OR Baz"),
+        (("Or", col("Foo"), ("Or", col("Bar"), col("Baz"))), "Foo OR (Bar OR Baz)"),
+    ]
+    src = open(os.path.join(REPO, "src/internal/expr.rs")).read()
+    for k, (tree, want) in enumerate(cases):
+        if '"%s"' % want not in src:
+            continue
+        got = c19_render(templates, tree)
+        g.queries.append(Query("render_%d" % k, ["true"] if got != want else ["false"], "unsat", note="rendered %r, test expects %r" % (got, want)))
+    g.witness.append(Query("render_w", ["true"], "sat"))
+    groups.append(g)
+
+    # ---- template shape: tokens, operand order, balanced parentheses -------
+    g = Group("template_shape", fns, note="every node kind prints [ '(' ] child0 TOKEN child1 [ ')' ] (prefix: TOKEN child0) with the "
+              "token of its own operator, operands in order, parentheses balanced, never an error return")
+    for name, (P, paths) in templates.items():
+        for k, o in enumerate(paths):
+            if o.kind == "panic":
+                g.queries.append(Query("panic_%s_%d" % (name, k), o.pc, "unsat", get={"parent_prec": P.term}, note=o.msg))
+                continue
+            evs = list(o.events)
+            ok = True
+            why = ""
+            if any(e[0] == "error-return" for e in evs):
+                ok, why = False, "error return without a failing write"
+            par = evs and evs[0] == ("tok", "(")
+            if par:
+                if evs[-1] != ("tok", ")"):
+                    ok, why = False, "unbalanced parentheses"
+                evs = evs[1:-1]
+            elif evs and evs[-1] == ("tok", ")"):
+                ok, why = False, "unbalanced parentheses"
+            if ok:
+                if name == "Literal":
+                    exp = [("literal",)]
+                    ok = evs == exp
+                elif name == "Column":
+                    ok = len(evs) == 1 and evs[0][0] == "dyn"
+                elif name in C19_UNARY:
+                    ok = len(evs) == 2 and evs[0] == ("tok", C19_TOKEN[name]) and evs[1][0] == "child" and evs[1][1] == "child0"
+                else:
+                    ok = (len(evs) == 3 and evs[0][0] == "child" and evs[0][1] == "child0" and evs[1] == ("tok", C19_TOKEN[name])
+                          and evs[2][0] == "child" and evs[2][1] == "child1")
+                if not ok:
+                    why = "token sequence %r" % (evs,)
+            # a malformed template is a violation for every parent precedence that reaches it
+            g.queries.append(Query("shape_%s_%d" % (name, k), (o.pc if not ok else ["false"]), "unsat",
+                                   get={"parent_prec": P.term}, note="%s: %s" % (name, why)))
+            g.witness.append(Query("shape_w_%s_%d" % (name, k), o.pc, "sat"))
+    groups.append(g)
+
+    # ---- parenthesisation adequacy -----------------------------------------
+    g = Group("paren_adequacy", fns, confirm=_c19_confirm,
+              note="for every (parent operator, slot, child operator): if the ladder of the property statement needs parentheses "
+                   "around the child, the child's template emits them at the precedence the parent passes for that slot")
+    for pname, (PP, ppaths) in templates.items():
+        if pname in ("Literal", "Column"):
+            continue
+        # precedence passed to each slot (identical on all of the parent's paths; taken from the first)
+        slots = {}
+        for o in ppaths:
+            if o.kind != "return":
+                continue
+            for ev in o.events:
+                if ev[0] == "child":
+                    slots.setdefault(int(ev[1][-1]), []).append((o.pc, ev[2]))
+        for slot, alts in slots.items():
+            for cname, (CP, cpaths) in templates.items():
+                if not c19_needs_parens(pname, slot, cname):
+                    continue
+                for (ppc, pterm) in alts[:2]:
+                    for k, co in enumerate(cpaths):
+                        if co.kind != "return":
+                            continue
+                        has_paren = bool(co.events) and co.events[0] == ("tok", "(")
+                        if has_paren:
+                            continue
+                        # child prints WITHOUT parentheses on this path: must be infeasible at the passed precedence
+                        g.queries.append(Query("adeq_%s_%d_%s_%d_%d" % (pname, slot, cname, k, len(g.queries)),
+                                               ppc + co.pc + ["(= %s %s)" % (CP.term, pterm)], "unsat",
+                                               get={"parent_prec": PP.term},
+                                               note="parent=%s slot=%d child=%s" % (pname, slot, cname)))
+    g.witness.append(Query("adeq_w", ["true"], "sat"))
+    groups.append(g)
+    return groups
+
+
+# --------------------------------------------------------------------------
+# C14: CodePage::encoding -- which encoding_rs table each code page uses
+# --------------------------------------------------------------------------
+
+# reference: the Windows meaning of the identifiers (28591 -> windows-1252 is accepted:
+# encoding_rs has no other Latin-1 table and WHATWG defines the label that way)
+C14_REF = {
+    "Windows932": "SHIFT_JIS", "Windows936": "GBK", "Windows949": "EUC_KR", "Windows950": "BIG5", "Windows951": "BIG5",
+    "Windows1250": "WINDOWS_1250", "Windows1251": "WINDOWS_1251", "Windows1252": "WINDOWS_1252", "Windows1253": "WINDOWS_1253",
+    "Windows1254": "WINDOWS_1254", "Windows1255": "WINDOWS_1255", "Windows1256": "WINDOWS_1256", "Windows1257": "WINDOWS_1257",
+    "Windows1258": "WINDOWS_1258", "MacintoshRoman": "MACINTOSH", "MacintoshCyrillic": "X_MAC_CYRILLIC",
+    "Iso88591": "WINDOWS_1252", "Iso88592": "ISO_8859_2", "Iso88593": "ISO_8859_3", "Iso88594": "ISO_8859_4",
+    "Iso88595": "ISO_8859_5", "Iso88596": "ISO_8859_6", "Iso88597": "ISO_8859_7", "Iso88598": "ISO_8859_8", "Utf8": "UTF_8",
+}
+C14_ID = {"Windows932": 932, "Windows936": 936, "Windows949": 949, "Windows950": 950, "Windows951": 951,
+          "Windows1250": 1250, "Windows1251": 1251, "Windows1252": 1252, "Windows1253": 1253, "Windows1254": 1254,
+          "Windows1255": 1255, "Windows1256": 1256, "Windows1257": 1257, "Windows1258": 1258, "MacintoshRoman": 10000,
+          "MacintoshCyrillic": 10007, "UsAscii": 20127, "Iso88591": 28591, "Iso88592": 28592, "Iso88593": 28593,
+          "Iso88594": 28594, "Iso88595": 28595, "Iso88596": 28596, "Iso88597": 28597, "Iso88598": 28598, "Utf8": 65001}
+
+
+def _c14_confirm(model, native):
+    out = native("native::c14::replay_c14", {"page": model.get("pageid"), "want": model.get("want")})
+    if not out.get("_ran"):
+        return None, "native replay did not run"
+    return (out.get("differs") == 1), "code page %s vs encoding_rs %s: %s" % (model.get("page"), model.get("want"), out.get("witness"))
+
+
+def c14_groups(mir, ctx):
+    fns = ["codepage::CodePage::encoding"]
+    src = open(os.path.join(REPO, "src/internal/codepage.rs")).read()
+    m = re.search(r"pub enum CodePage \{(.*?)\n\}", src, re.S)
+    if not m:
+        raise EncodingError("enum CodePage not found")
+    variants = re.findall(r"^\s*(\w+),\s*$", m.group(1), re.M)
+    if len(variants) < 20:
+        raise EncodingError("could not read CodePage variants")
+    fn = mir.find(r"codepage::.*::encoding$")
+    # allocation -> static name, from the dump section that follows the function
+    txt = open(mir_path_of(mir)).read()
+    start = txt.index(fn.header)
+    nxt = txt.find("\nfn ", start + 10)
+    region = txt[start: nxt if nxt > 0 else len(txt)]
+    statics = dict(re.findall(r"^(alloc\d+) \(static: (\w+),", region, re.M))
+
+    def c_alloc(ex, t):
+        mm = re.match(r"\{(alloc\d+): (&+)", t)
+        if not mm or mm.group(1) not in statics:
+            raise EncodingError("constant %s is not a named static in the MIR dump" % t)
+        v = StrV(statics[mm.group(1)])
+        for _ in range(len(mm.group(2))):
+            v = RefV(v)
+        return v
+
+    def m_panic(ex, callee, args, pc, events):
+        return [(pc, events, Outcome("panic", pc, msg="unreachable!() in CodePage::encoding", events=events))]
+
+    models = [(r"const:^\{alloc\d+: &", c_alloc), (r"core::panicking::panic$", m_panic)]
+    names = sorted(set(C14_REF.values()))
+    enc_id = {n: i + 1 for i, n in enumerate(names)}
+    d = ctx.fresh_int("codepage_discr", None, 0, len(variants) - 1)
+    ref_term = "0"
+    for i, v in enumerate(variants):
+        if v in C14_REF:
+            ref_term = "(ite (= %s %d) %d %s)" % (d.term, i, enc_id[C14_REF[v]], ref_term)
+        elif v != "UsAscii":
+            raise EncodingError("code page %s is not in the C14 reference table" % v)
+    ex = M.Exec(mir, ctx, models=models)
+    outs = ex.run(fn, [RefV(EnumV(discr=d))])
+    outs = outs + ex._pending_panics
+    ex._pending_panics = []
+    g = Group("encoding_table", fns, confirm=_c14_confirm,
+              note="every code page uses the encoding_rs table of the Windows code page its identifier names")
+    ascii_idx = variants.index("UsAscii") if "UsAscii" in variants else -1
+    for k, o in enumerate(outs):
+        if o.kind == "unreachable":
+            continue
+        if o.kind == "panic":
+            # encoding() is unreachable!() for US-ASCII only (encode/decode handle it before calling)
+            g.queries.append(Query("panic_%d" % k, o.pc + ["(not (= %s %d))" % (d.term, ascii_idx)], "unsat",
+                                   get={"discr": d.term}, note="panic path reachable for a code page other than US-ASCII"))
+            continue
+        v = deref(o.value)
+        if not isinstance(v, StrV):
+            raise EncodingError("encoding() returned %r" % (v,))
+        name = v.s[:-5] if v.s.endswith("_INIT") else v.s
+        got_id = enc_id.get(name, 0)
+        # which page is this path? (for the replay) -- read it off the path condition
+        mm = re.search(r"\(= %s (\d+)\)" % re.escape(d.term), " ".join(o.pc))
+        page = variants[int(mm.group(1))] if mm else "?"
+        g.queries.append(Query("table_%d" % k, o.pc + ["(not (= %s %d))" % (ref_term, got_id)], "unsat", get={"discr": d.term},
+                               note="page=%s uses=%s want=%s pageid=%s" % (page, name, C14_REF.get(page, "?"), C14_ID.get(page, 0))))
+        g.witness.append(Query("table_w_%d" % k, o.pc, "sat"))
+    # fix up model for confirm(): page id + wanted encoding come from the note
+    return [g]
+
+
+def mir_path_of(mir):
+    return mir._path
+
+
+# --------------------------------------------------------------------------
 # driver
 # --------------------------------------------------------------------------
 
-BUILDERS = {"C18": c18_groups}
+BUILDERS = {"C18": c18_groups, "C19": c19_groups, "C14": c14_groups}
 
 
 def native_confirm_c18(vals, work):
@@ -462,9 +886,13 @@ def run_property(pid, tier, work, known_by_id, replay_dir):
                                        "constants no longer match the code" % (pid, g.name, bad[0].name))
                 res["records"].append(rec)
                 continue
-            if g.confirm and withmodel:
+            if g.confirm and (withmodel or bad):
                 try:
-                    reproduced, detail = g.confirm(withmodel[0].model, native)
+                    q0 = (withmodel or bad)[0]
+                    model = dict(q0.model or {})
+                    for kv in re.findall(r"(\w+)=(\w+)", q0.note or ""):
+                        model.setdefault(kv[0], kv[1])
+                    reproduced, detail = g.confirm(model, native)
                 except Exception as e:  # noqa
                     reproduced, detail = None, "native replay failed to run: %r" % (e,)
             with open(rp, "a") as f:
